@@ -158,6 +158,17 @@ pub fn run(tier: &str, seed: u64, dir: &str) {
             sink.case(&op, &eval(&op), "join-walk", true);
         }
     }
+    // dynamic plans: masks that name no defined channel after a removal (NewChannelReq / CFList): the
+    // uplinks that follow must use defined, enabled channels
+    for region in REGIONS {
+        if is_fixed(region) {
+            continue;
+        }
+        for k in 0..(if thorough { 30 } else { 6 }) {
+            let op = stale_mask_history("C09", &mut rng, region, k % 3);
+            sink.case(&op, &eval(&op), "stale-mask", true);
+        }
+    }
     // device level: both front-ends with the scripted radio (see adevgen::add_dev_classes)
     crate::adevgen::add_dev_classes("C09", &mut rng, &mut sink, thorough, eval);
     sink.finish(dir, "MAC histories with OTAA joins (CFLists), LinkADRReq / NewChannelReq / DlChannelReq downlinks, ADR back-off, application data-rate changes, join bias, antenna gains {0,2,-3,6} and board powers {2,14,20,30}; a state snapshot follows every step so that each TxConfig is judged against the plan in force; forced RNG draws enumerate channel choices of the initial state; plans reduced to a single enabled slot at every index. Non-trivial = every case.", false, serde_json::json!({}));
